@@ -49,6 +49,9 @@ def oblige(out: CaseOut, d: Discharger, enc: Encoding, prop, label, formulas, on
     from .replay import replay_subprocess
     out.obligations += 1
     blocks = []
+    if out.findings:
+        # a violation of this case is already confirmed: do not spend replays on its siblings
+        return False
     for attempt in range(retries + 1):
         res, m = d.check(*formulas, *blocks)
         if res == 'unsat':
@@ -298,23 +301,29 @@ def c02(g, tier, out, src):
         oblige(out, d, enc, 'C02', f'{prog}: MR[H](x) and guard(x,r)', [mr, gd], ('missed', prog), src)
         oblige(out, d, enc, 'C02', f'{prog}: guard(x,r) and not S_r[H](x)', [gd, z3.Not(srr)],
                ('unsampled', prog), src)
-    # clause 3: every index of a sequence is reachable under random sampling; index 0 otherwise
-    if node.kind == 'seq' and refsem.depth_ok_for_reach(node):
+    # clause 3: every index of a sequence is reachable under random sampling; index 0 otherwise.
+    # "Under random sampling" is read operationally: the generated guard mentions the draw.
+    if node.kind in ('seq', 'coll', 'quasi'):
         item_mr = lambda t: enc.sem.mr(node.kids[0], t)
-        if enc.is_random:
+        seq_abc = refsem.cabc.Sequence
+        # ... at this level: some positional read of x itself uses an index computed from the draw
+        uses_draw = any(e.kind == 'read' and e.index is not None and e.subject.get_id() == x.get_id()
+                        and _mentions_var(e.index, r)
+                        for res_ in enc.results.values() for e in res_.events)
+        if uses_draw:
             i = z3.Int('i_reach')
             # witness draw r := i
-            f = [U.isinstance(x, node.cls), U.isinstance(x, refsem.cabc.Sequence), i >= 0, i < U.len(x), i < 2 ** 32,
+            f = [U.isinstance(x, node.cls), U.isinstance(x, seq_abc), i >= 0, i < U.len(x), i < 2 ** 32,
                  item_mr(U.item_of(x, i)), r == i]
             for prog in PROGRAMS:
                 gd = enc.guards[prog] if prog != 'return' else z3.And(enc.guards['param'], enc.guards[prog])
-                oblige(out, d, enc, 'C02', f'{prog}: item i in MR, draw r=i, yet accepted', f + [gd],
-                       ('unsampled', prog), src)
-        else:
+                oblige(out, d, enc, 'C02', f'{prog}: sequence item i in MR, draw r=i, yet accepted', f + [gd],
+                       ('unreached', prog), src)
+        elif node.kind == 'seq':
             f = [U.isinstance(x, node.cls), U.len(x) > 0, item_mr(U.item_of(x, 0))]
             for prog in PROGRAMS:
                 gd = enc.guards[prog] if prog != 'return' else z3.And(enc.guards['param'], enc.guards[prog])
-                oblige(out, d, enc, 'C02', f'{prog}: item 0 in MR yet accepted (is_random=False)', f + [gd],
+                oblige(out, d, enc, 'C02', f'{prog}: item 0 in MR yet accepted (no random sampling)', f + [gd],
                        ('unsampled', prog), src)
             # documentation witness: a violation only at i>0 is accepted
             if g.tester is not None and enc.U.bound and enc.U.bound >= 2:
@@ -336,6 +345,23 @@ def c02(g, tier, out, src):
             fs.append([gd, z3.Not(sU)])
         return fs
     _unbounded(out, g, build)
+
+
+def _mentions_var(formula, var):
+    """Does z3 term ``formula`` contain the constant ``var``?"""
+    seen = set()
+    stack = [formula]
+    vid = var.get_id()
+    while stack:
+        t = stack.pop()
+        tid = t.get_id()
+        if tid in seen:
+            continue
+        seen.add(tid)
+        if tid == vid:
+            return True
+        stack.extend(t.children())
+    return False
 
 
 # --------------------------------------------------------------------------- C03 A
